@@ -84,6 +84,7 @@ def run(ck):
     ck.rule("C09.R13", "a veto reaches every layer of a Vec: the Vec's published interest never promises more than its `enabled` (= all elements) will allow (as C08.R6)", floor=3)
     ck.rule("C09.R14", "no layer misses a notification because of per-filter state left over from an earlier emission (bitmap typestate, as C07.R5)", floor=100)
     ck.rule("C09.R14s", "effect summaries behind C09.R14 (as C07.R5s)", floor=9)
+    ck.rule("C09.R15", "stack construction wires what the call says: and_then / with_collector / with_filter / boxed build their wrapper from (new layer, what it goes on top of) in that order, and with_collector lets the layer see the collector first (on_subscribe)", floor=4)
     ck.rule("C09.R5", "Layered::pick_interest asks the inner value on every path except the outer `never` veto", floor=1)
 
     wrapper_rules(ck, F)
@@ -92,6 +93,7 @@ def run(ck):
     dispatch_forwarding(ck, F)
     check_pick_interest(ck, F)
     layered_drop_span(ck, F)
+    composition_constructors(ck, F)
     from rules import C07 as _C07
     _C07.r5(ck, Facts("release"), rid="C09.R14")
     from rules import C08 as _C08
@@ -742,3 +744,41 @@ def dispatch_forwarding(ck, F, rid="C09.R4", only=None):
             ck.bad(rid, key, where(b.raw["sp"]), "; ".join(sorted(set(problems))[:3]) or "no returning path", fn=b.path)
         else:
             ck.ok(rid, key, fn=b.path)
+
+
+def composition_constructors(ck, F, rid="C09.R15"):
+    from rulekit.sym import PathEval, show
+    S = SUBSCRIBE + "::"
+    want = {
+        "and_then": ("Layered", ["arg2", "arg1"], "the added subscriber goes on top of self"),
+        "with_collector": ("Layered", ["arg1", "arg2"], "self goes on top of the collector"),
+        "with_filter": ("Filtered", ["arg1", "arg2"], "self is wrapped with the filter"),
+    }
+    for m, (ty, args, why) in want.items():
+        b = F.body(S + m)
+        key = "Subscribe::%s builds %s::new(%s): %s" % (m, ty, ", ".join(args), why)
+        if not ck.anchor(rid, "Subscribe::" + m, b):
+            continue
+        rets = [p.ret for p in PathEval(b).run() if p.end == "return"]
+        ok = len(rets) == 1 and rets[0][0] == "call" and rets[0][1].endswith("::new") and (ty + "::") in rets[0][1] and [show(a) for a in rets[0][2][:2]] == args
+        if ok and m == "with_collector":
+            ons = [bb for bb, t in b.calls() if t["callee"].get("method") == "on_subscribe"]
+            news = [bb for bb, t in b.calls() if (t["callee"].get("path") or "").endswith("Layered::<A, B, C>::new")]
+            ok = len(ons) == 1 and len(news) == 1 and b.dominates(ons[0], news[0])
+        if ok:
+            ck.ok(rid, key, fn=b.path)
+        else:
+            ck.bad(rid, key, where(b.raw["sp"]), "returns %s" % [show(r)[:90] for r in rets], fn=b.path)
+    b = F.body("tracing_subscriber::subscribe::layered::Layered::<A, B, C>::new")
+    if ck.anchor(rid, "Layered::new", b):
+        key = "Layered::new stores (subscriber, inner) as given"
+        aggs = [st for i, j, st in b.stmts() if st["k"] == "assign" and (st.get("rv", {}).get("agg") or {}).get("adt", "").endswith("layered::Layered")]
+        ok = len(aggs) == 1
+        if ok:
+            f = dict(zip(aggs[0]["rv"]["agg"]["fields"], aggs[0]["rv"]["ops"]))
+            o1, o2 = b.origin(f["subscriber"]), b.origin(f["inner"])
+            ok = o1[0] == "arg" and o1[1] == 1 and o2[0] == "arg" and o2[1] == 2
+        if ok:
+            ck.ok(rid, key, fn=b.path)
+        else:
+            ck.bad(rid, key, where(b.raw["sp"]), "the two halves are not stored as (arg1 -> subscriber, arg2 -> inner)", fn=b.path)
